@@ -48,6 +48,16 @@ def check(ctx):
         return
     pv = md.pv
     by_label = check_dispatch(ctx, md, KEY_PARAMS, RESULT)
+    # "pairwise distinct labels": the duplicate rule of this decoder (C12 R-1's recogniser under this property's name)
+    from rules import c12 as _c12
+    _c12.check_decoder(ctx.under("R-1", "distinct-labels"), DEC, "R-1")
+    # accepted "iff ..." is stated for CBOR items reaching the decoder through the byte-level API as well: the one parser entry
+    # hands back exactly the parsed item (C13 R-1's recogniser; a read_to_value that unwraps a tag changes the accepted set)
+    from rules import c13 as _c13
+    _c13.check_read_to_value(ctx.under("R-1", "parser-entry"), "R-1")
+    from rules import structs_common as _S
+    _S.check_derived_impls(ctx, "R-1", {"core::default::Default"}, only_structs=True)
+    _S.check_derived_impls(ctx, "R-1", {"core::cmp::PartialEq", "core::cmp::Eq"})
     V = ("sym", "value")
     res = ("local", md.result_local, fn.local_name(md.result_local))
     special = {}
